@@ -28,7 +28,7 @@ const LD64: u64 = CODE_AT + 16; // 48 8b 07   mov rax, [rdi]
 
 /// further load forms (offset in the palette, bytes read, encoding): every byte below the break is readable by
 /// whatever instruction the guest uses, also when the operand ends exactly at the break
-const LOADS: [(u64, u64, &[u8]); 8] = [
+const LOADS: [(u64, u64, &[u8]); 14] = [
     (32, 2, &[0x0f, 0xb7, 0x07]),       // movzx eax, word [rdi]
     (36, 2, &[0x48, 0x0f, 0xb7, 0x07]), // movzx rax, word [rdi]
     (40, 1, &[0x0f, 0xb6, 0x07]),       // movzx eax, byte [rdi]
@@ -37,10 +37,17 @@ const LOADS: [(u64, u64, &[u8]); 8] = [
     (52, 4, &[0x48, 0x63, 0x07]),       // movsxd rax, dword [rdi]
     (56, 4, &[0x03, 0x07]),             // add eax, [rdi]
     (60, 16, &[0x0f, 0x10, 0x07]),      // movups xmm0, [rdi]
+    // instructions that only look at their memory operand
+    (68, 2, &[0x66, 0x83, 0x3f, 0x05]),             // cmp word [rdi], 5
+    (72, 2, &[0x66, 0x81, 0x3f, 0x34, 0x12]),       // cmp word [rdi], 1234h
+    (80, 1, &[0x80, 0x3f, 0x07]),                   // cmp byte [rdi], 7
+    (84, 4, &[0x83, 0x3f, 0x09]),                   // cmp dword [rdi], 9
+    (88, 8, &[0x48, 0x85, 0x07]),                   // test [rdi], rax
+    (92, 4, &[0xf7, 0x07, 0x01, 0x00, 0x00, 0x00]), // test dword [rdi], 1
 ];
 
 fn code() -> Vec<u8> {
-    let mut c = vec![0x90u8; 68];
+    let mut c = vec![0x90u8; 100];
     for (off, _, b) in LOADS.iter() {
         c[*off as usize..*off as usize + b.len()].copy_from_slice(b);
     }
@@ -270,8 +277,15 @@ impl C13 {
                         continue;
                     }
                     let addr = if rng.below(3) != 0 { brk - n } else { base + rng.below(brk - base - n + 1) };
+                    let held = call(|| ax.mem_read_bytes(addr, n));
                     let r = guest(&mut ax, CODE_AT + off, 0, addr);
                     tail.push(format!("load form @{} ({} bytes) at base+{:#x}", off, n, addr - base));
+                    // looking at heap bytes does not change them
+                    if let (Call::Ok(h0), Call::Ok(h1)) = (&held, &call(|| ax.mem_read_bytes(addr, n))) {
+                        if h0 != h1 {
+                            return fail(col, "load-changed-the-heap", format!("guest instruction at palette offset {} reading {} bytes at {:#x}: heap bytes {} -> {}", off, n, addr, hex(h0), hex(h1)), &tail, &layout);
+                        }
+                    }
                     col.eval(1);
                     col.distinct_key(&format!("loadform|{}|{}", off, addr == brk - n));
                     match r {
